@@ -240,6 +240,14 @@ class GraphBuild:
                     cs, _how = T.callees(v, c, byname_fallback=False)
                 except Exception:  # noqa: BLE001
                     cs = []
+                cs = list(cs)
+                # callables handed to the callee (map(self._add_import, imports), key=...) are assumed to be called by it
+                for a in [*c.args, *[k.value for k in c.keywords]]:
+                    try:
+                        at = T.expr(v, a)
+                    except Exception:  # noqa: BLE001
+                        continue
+                    cs += [m[1] for m in members(at) if m[0] == "fn"]
                 for k, fs in self.kind_funcs.items():
                     if any(g in fs for g in cs):
                         out.setdefault(k, []).append(c)
